@@ -43,9 +43,9 @@ def run_property(prop, tier, report):
     cov["transitions"] = max(stats["generated"], 1)
     cov["traces_validated_against_impl"] = total
     cov["exhaustive"] = True
-    cov["rule"] = ("the whole decision table: 2 name shapes x 4 version shapes x dir/wasm/wat/decoy present or absent x "
-                   "override none/file/dangling x both unknown-package modes x both builds of the wat feature = 1536 "
-                   "rows, plus 136 requests of two or three keys of which at least one is missing (both modes, both builds): "
+    cov["rule"] = ("the whole decision table: 2 name shapes x 4 version shapes x dir/wat/decoy present or absent x "
+                   "`.wasm` absent/binary/holding text x override none/file/file holding text/dangling x both "
+                   "unknown-package modes x both builds of the wat feature = 3072 rows, plus 136 requests of two or three keys of which at least one is missing (both modes, both builds): "
                    "every key is looked up on its own, a missing one is skipped or fails the request; a WIT directory with a "
                    "vendored deps/ folder must yield its own package; "
                    "rows; each is materialised as a temporary directory tree and resolved by the real resolver of the "
